@@ -134,6 +134,7 @@ type c13Park struct {
 	point  string
 	name   string
 	prod   *c13Prod
+	task   *c13Task // the task being executed, for point "task.running"
 	resume chan struct{}
 }
 
@@ -149,6 +150,7 @@ type c13Sched struct {
 	queues    []*c13QInfo
 	qByPtr    map[*UdpTaskQueue]*c13QInfo
 	gidQueue  map[uint64]*c13QInfo
+	taskByGid map[uint64]*c13Task
 	chans     []chan UdpTask
 	tasks     []*c13Task
 	accepted  [][]*c13Task // per key, in acceptance order
@@ -171,6 +173,7 @@ func c13NewSched(nKeys int) *c13Sched {
 		prodByGid: map[uint64]*c13Prod{},
 		qByPtr:    map[*UdpTaskQueue]*c13QInfo{},
 		gidQueue:  map[uint64]*c13QInfo{},
+		taskByGid: map[uint64]*c13Task{},
 		accByQ:    map[*c13QInfo][]*c13Task{},
 		execByQ:   map[*c13QInfo]int{},
 		classes:   map[string]bool{},
@@ -250,6 +253,11 @@ func (s *c13Sched) yield(point string) {
 					s.classes["acquire_saw_claimed_queue"] = true
 				}
 			}
+			if q == nil && pr.candSet && pr.cand != nil && !s.closed {
+				// the only queue this producer can be holding is the claimed one
+				q = pr.cand
+				s.failf("EmitTask for key %d acquired queue #%d although it was already claimed for deletion (refs=%d): its task can never run", pr.key, s.qinfo(q, pr.key).serial, q.refs.Load())
+			}
 			pr.qi = s.qinfo(q, pr.key)
 			if pr.qi == nil && !s.closed {
 				s.failf("harness: producer %d holds no identifiable queue for key %d", pr.id, pr.key)
@@ -271,6 +279,9 @@ func (s *c13Sched) yield(point string) {
 		return
 	}
 	p := &c13Park{gid: gid, point: point, prod: pr, resume: make(chan struct{})}
+	if point == "task.running" {
+		p.task = s.taskByGid[gid]
+	}
 	s.parked = append(s.parked, p)
 	s.mu.Unlock()
 	<-p.resume
@@ -287,6 +298,9 @@ func (s *c13Sched) newTask(key, prod int, park bool) *c13Task {
 		s.running[key]++
 		if s.running[key] > 1 && !s.resetSeen && !s.closed {
 			s.failf("two tasks of flow key %d were running at the same time (task %d started while another was still executing)", key, t.id)
+		}
+		if t.park {
+			s.taskByGid[gid] = t
 		}
 		s.mu.Unlock()
 		if t.park {
@@ -496,6 +510,20 @@ func (s *c13Sched) forbiddenF5(p *c13Park) bool {
 	return pr.qi != nil && win[pr.qi] && pr.qi.q.refs.Load() == 1
 }
 
+// forbiddenOverflowRace reports whether resuming p would let a burst producer
+// free-run while the convoy of its queue is not parked: whether the channel then
+// fills up while the convoy sits between "channel empty" and popOverflowTask is a
+// real-time race (known finding F-C13-1), not a scheduled one.
+func (s *c13Sched) forbiddenOverflowRace(p *c13Park) bool {
+	// the convoy may not leave the first task of a burst before the burst's
+	// producer has emitted the rest (with the convoy parked the outcome is exact)
+	if p.prod != nil || p.point != "task.running" || p.task == nil {
+		return false
+	}
+	pr := s.prods[p.task.prod]
+	return pr.burst && len(pr.tasks) > 0 && pr.tasks[0] == p.task && !pr.freeRun && !pr.done
+}
+
 type c13Action struct {
 	kind string
 	park *c13Park
@@ -580,7 +608,7 @@ var c13Masks = [][]string{
 	{},
 }
 
-func (s *c13Sched) drawProducer(rt *rapid.T, known bool) *c13Prod {
+func (s *c13Sched) drawProducer(rt *rapid.T, known, knownOvf bool) *c13Prod {
 	pr := &c13Prod{id: len(s.prods), key: rapid.IntRange(0, len(s.keys)-1).Draw(rt, "key"), mask: map[string]bool{}}
 	for _, m := range rapid.SampledFrom(c13Masks).Draw(rt, "mask") {
 		pr.mask[m] = true
@@ -609,6 +637,10 @@ func (s *c13Sched) drawProducer(rt *rapid.T, known bool) *c13Prod {
 			pr.tasks = append(pr.tasks, s.newTask(pr.key, pr.id, i == 0 || (parkLast && i == n-1)))
 		}
 		s.classes["burst"] = true
+		if knownOvf {
+			// the convoy must be parked (in the first task) before the burst free-runs
+			pr.mask["emit.afterEnqueue"] = true
+		}
 	}
 	s.tr("emit(P%03d key=%d %s n=%d mask=%v)", pr.id, pr.key, kind, len(pr.tasks), c13SortedKeys(pr.mask))
 	return pr
@@ -653,6 +685,8 @@ func c13Debug(format string, a ...any) {
 
 func c13TaskPoolCase(rt *rapid.T) {
 	known := vkKnown("F5")
+	knownOvf := vkKnown("F-C13-1")
+	excludedOvf := false
 	nKeys := rapid.IntRange(1, 3).Draw(rt, "nKeys")
 	nSteps := rapid.IntRange(8, 140).Draw(rt, "nSteps")
 	maxProd := rapid.IntRange(1, 4).Draw(rt, "maxProd")
@@ -676,6 +710,10 @@ func c13TaskPoolCase(rt *rapid.T) {
 				s.excluded++
 				continue
 			}
+			if knownOvf && s.forbiddenOverflowRace(p) {
+				excludedOvf = true
+				continue
+			}
 			w := 3
 			if p.prod == nil && strings.HasPrefix(p.point, "convoy.") {
 				w = 2
@@ -693,7 +731,19 @@ func c13TaskPoolCase(rt *rapid.T) {
 		}
 		acts = append(acts, c13Action{kind: "sleep", w: sw})
 		if allowReset {
-			acts = append(acts, c13Action{kind: "reset", w: 1})
+			// a Reset under a pending burst makes the burst continue on a brand-new
+			// queue whose convoy is not parked: the unscheduled race of F-C13-1
+			liveBurst := false
+			for _, pr := range s.prods {
+				if pr.burst && !pr.done {
+					liveBurst = true
+				}
+			}
+			if knownOvf && liveBurst {
+				excludedOvf = true
+			} else {
+				acts = append(acts, c13Action{kind: "reset", w: 1})
+			}
 		}
 		if allowClose && step > nSteps/2 {
 			acts = append(acts, c13Action{kind: "close", w: 1})
@@ -715,7 +765,7 @@ func c13TaskPoolCase(rt *rapid.T) {
 		case "resume":
 			s.resume(act.park)
 		case "emit":
-			s.startProducer(s.drawProducer(rt, known))
+			s.startProducer(s.drawProducer(rt, known, knownOvf))
 		case "sleep":
 			d := rapid.SampledFrom(c13Sleeps).Draw(rt, "sleep")
 			s.tr("sleep(%v)", d)
@@ -750,6 +800,10 @@ func c13TaskPoolCase(rt *rapid.T) {
 		for _, p := range s.parked {
 			if known && s.forbiddenF5(p) {
 				excludedCase = true
+				continue
+			}
+			if knownOvf && s.forbiddenOverflowRace(p) {
+				excludedOvf = true
 				continue
 			}
 			next = p
@@ -839,6 +893,10 @@ func c13TaskPoolCase(rt *rapid.T) {
 	if excludedCase {
 		vkExcluded(c13UnitTask, "F5")
 		cl = append(cl, "f5_interleaving_excluded")
+	}
+	if excludedOvf {
+		vkExcluded(c13UnitTask, "F-C13-1")
+		cl = append(cl, "overflow_race_excluded")
 	}
 	nt := ""
 	if s.classes["producer_step_inside_gc"] || s.classes["overflow"] {
